@@ -8,17 +8,29 @@
 -/
 import Flamego.Driver.Writer
 import Flamego.Driver.Router
+import Flamego.Driver.Ret
+import Flamego.Driver.Inject
+import Flamego.Driver.Static
+import Flamego.Driver.Access
+import Flamego.Driver.Render
 open Flamego Flamego.Driver
 
 def dispatch (o : Oracle) (kind : String) (args : List String) (body : List (List String)) : List String :=
   match kind with
   | "writer" => Writer.session args body
   | "router" => Router.session o.engine args body
+  | "ret" => Ret.session args body
+  | "inject" => Inject.session args body
+  | "injectflame" => Inject.flameSession args body
+  | "static" => Static.session args body
+  | "access" => Access.session o args body
+  | "render" => Render.session args body
   | _ => "bad-kind" :: body.map (fun _ => "bad-kind")
 
 def dispatchQueries (kind : String) (args : List String) (body : List (List String)) : List String :=
   match kind with
   | "router" => Router.queries args body
+  | "access" => Access.queries body
   | _ => []
 
 partial def readLines (h : IO.FS.Stream) (acc : Array String) : IO (Array String) := do
